@@ -46,12 +46,19 @@ structure Admissible (upper : Text → Text) (f : TType → Text → Text) : Pro
   plain : ∀ tt v, TType.isIn tt T.Keyword = false → TType.isIn tt T.Whitespace = false → f tt v = v
   value : ∀ (n : Node) (w : Text), w ∈ skipWords → (upper (respell f n).value == w) = (upper n.value == w)
 
-/-- the leaf types whose values the engine never reads (outside `group_functions`' `value` test): whitespace types
-and the two identifier types `Name` (plain and backtick-quoted names) and `String.Symbol` (double-quoted names) -/
-def freeTT (tt : TType) : Bool := TType.isIn tt T.Whitespace || tt == T.Name || tt == T.StringSymbol
+/-- the leaf types whose values the engine never reads (outside `group_functions`' `value` test and the `upper`-image of
+keywords): every type except the four that occur, with concrete values, in a non-keyword pattern of the generated
+tables — `Punctuation`, `Operator` (`->`, `->>`), `Assignment` (`:=`) — or are re-typed by `group_operator`
+(`Operator`, `Wildcard`).  Free are in particular whitespace, `Name`, `Name.Builtin`, `Name.Placeholder`, every
+`Literal.*` (numbers, `String.Single`, `String.Symbol`), `Operator.Comparison`, comments. -/
+def freeTT (tt : TType) : Bool := !(tt == T.Punctuation || tt == T.Operator || tt == T.Wildcard || tt == T.Assignment)
 
-/-- like `Admissible`, but identifier-typed leaves (`Name`, `String.Symbol`) may be re-spelled too: `plain` is only
-required of the leaves that are neither keywords nor of a free type -/
+theorem freeTT_false_iff (tt : TType) :
+    freeTT tt = false ↔ tt = T.Punctuation ∨ tt = T.Operator ∨ tt = T.Wildcard ∨ tt = T.Assignment := by
+  simp only [freeTT, Bool.not_eq_false', Bool.or_eq_true, beq_iff_eq, or_assoc]
+
+/-- like `Admissible`, but the leaves of every free type (names, literals, …) may be re-spelled too: `plain` is only
+required of `Punctuation`, `Operator`, `Wildcard` and `Assignment` leaves -/
 structure AdmissibleNames (upper : Text → Text) (f : TType → Text → Text) : Prop where
   kw : ∀ tt v, TType.isIn tt T.Keyword = true → upper (f tt v) = upper v
   plain : ∀ tt v, TType.isIn tt T.Keyword = false → freeTT tt = false → f tt v = v
@@ -61,13 +68,12 @@ theorem Admissible.toNames {upper : Text → Text} {f : TType → Text → Text}
     AdmissibleNames upper f :=
   { kw := h.kw
     plain := fun tt v hk hf => h.plain tt v hk (by
-      simp only [freeTT, Bool.or_eq_false_iff] at hf
-      exact hf.1.1)
+      rcases (freeTT_false_iff tt).1 hf with rfl | rfl | rfl | rfl <;> decide)
     value := h.value }
 
-/-- no pattern of a `match`/`m=` argument has a free type together with concrete values (decided for every generated
-table at its point of use): such a pattern would read the value of a whitespace or identifier leaf -/
-def SafePats (ps : List MPat) : Bool := ps.all (fun p => !freeTT p.tt || p.values.isNone)
+/-- no pattern of a `match`/`m=` argument has a free non-keyword type together with concrete values (decided for
+every generated table at its point of use): such a pattern would read the value of a free leaf -/
+def SafePats (ps : List MPat) : Bool := ps.all (fun p => !freeTT p.tt || p.values.isNone || TType.isIn p.tt T.Keyword)
 
 section Prim
 variable {upper : Text → Text} {f : TType → Text → Text}
@@ -93,7 +99,7 @@ theorem respell_ttIn_fun (n : Node) : (respell f n).ttIn = n.ttIn := funext (res
 
 /-- `Token.match` does not see an admissible re-spelling, for a pattern whose type is not a whitespace type -/
 theorem respell_matchP (ha : AdmissibleNames upper f) (n : Node) (p : MPat)
-    (hp : (!freeTT p.tt || p.values.isNone) = true) :
+    (hp : (!freeTT p.tt || p.values.isNone || TType.isIn p.tt T.Keyword) = true) :
     (respell f n).matchP upper p = n.matchP upper p := by
   cases n with
   | grp c ks => simp [Node.matchP, Node.match]
@@ -111,7 +117,7 @@ theorem respell_matchP (ha : AdmissibleNames upper f) (n : Node) (p : MPat)
         | true => simp only [if_true]; rw [ha.kw t v hk]
         | false =>
           simp only [Bool.false_eq_true, if_false]
-          rw [ha.plain t v hk (by rw [hteq]; simpa [hv] using hp)]
+          rw [ha.plain t v hk (by rw [hteq] at hk ⊢; simpa [hv, hk] using hp)]
 
 theorem respell_matchAny (ha : AdmissibleNames upper f) (n : Node) (ps : List MPat) (hp : SafePats ps = true) :
     ps.any ((respell f n).matchP upper) = ps.any (n.matchP upper) := by
